@@ -66,6 +66,7 @@ type Exec struct {
 	recips               map[int]*smt.Term
 	closures             map[int]*Val
 	rootInfo             *rootInfo
+	skolems              []*smt.Term
 	exprTypes            map[Expr]types.Type
 	oldSet               map[int]bool
 }
@@ -99,6 +100,8 @@ func (x *Exec) oblige(kind, name string, guard, goal *smt.Term, pos token.Pos, t
 	if n := x.oblNames[name]; n > 1 {
 		name = fmt.Sprintf("%s~%d", name, n)
 	}
+	orig := goal
+	goal = x.skolemizeGoal(goal, 0)
 	parts := []*smt.Term{goal}
 	if goal.Op == "and" && len(goal.Args) <= 16 {
 		parts = goal.Args
@@ -123,7 +126,7 @@ func (x *Exec) oblige(kind, name string, guard, goal *smt.Term, pos token.Pos, t
 	if kind != "oncall" {
 		// (facts about callback arguments are not needed downstream and would
 		// only burden later nonlinear queries)
-		x.assume(guard, goal)
+		x.assume(guard, orig)
 	}
 }
 
@@ -782,4 +785,36 @@ func (x *Exec) loopEnvAtEdge(fr *Frame, l *loop, e *Edge, outer *Env) *CEnv {
 		}
 	}
 	return &CEnv{x: x, fr: fr, st: e.st, old: fr.entry, env: layer, loop: l, vars: fr.params, lets: fr.lets, guard: e.cond, fc: fr.fc}
+}
+
+// skolemizeGoal replaces universally quantified variables of a goal (which
+// become existential once the goal is negated) by fresh constants:
+//
+//	forall v. B        ~> B[v := c]
+//	A => forall v. B   ~> A => B[v := c]
+//	G1 and G2          ~> componentwise
+func (x *Exec) skolemizeGoal(g *smt.Term, depth int) *smt.Term {
+	if depth > 6 {
+		return g
+	}
+	switch {
+	case g.Op == "q" && g.QKind == "forall" && !g.Bound:
+		m := map[string]*smt.Term{}
+		for _, qv := range g.QVars {
+			fs := strings.SplitN(strings.Trim(qv, "()"), " ", 2)
+			c := x.b.Fresh("sk_"+strings.SplitN(fs[0], "!", 2)[0], fs[1])
+			m[fs[0]] = c
+			x.skolems = append(x.skolems, c)
+		}
+		return x.skolemizeGoal(x.b.Subst(g.Args[0], m), depth+1)
+	case g.Op == "=>" && !g.Bound:
+		return x.b.Implies(g.Args[0], x.skolemizeGoal(g.Args[1], depth+1))
+	case g.Op == "and" && !g.Bound:
+		var ps []*smt.Term
+		for _, a := range g.Args {
+			ps = append(ps, x.skolemizeGoal(a, depth+1))
+		}
+		return x.b.And(ps...)
+	}
+	return g
 }
